@@ -460,6 +460,24 @@ def run_mapping_triple(spec, work, ctx):
     ctx.bump('encoding_triples_mapping')
     ctx.features.add(('mapping-triple', spec['n_cells'], spec['n_genes'],
                       spec['normalization']))
+    # the same for an invalid matrix: raw counts with one negative entry
+    # are refused in every encoding and HDF5 layout, or in none
+    rng = np.random.default_rng(spec['seed'] + 5)
+    Xn = w.Xq.astype(np.float64).copy()
+    Xn[int(rng.integers(Xn.shape[0])), Xn.shape[1] - 1] = -3.0
+    verdicts = {}
+    for enc, lay in (('dense', None), ('dense', 'cols'), ('dense', 'small'),
+                     ('dense', 'gzip'), ('csr', None), ('csc', None)):
+        wd = mapworld.derive_world(w, f'neg_{enc}_{lay}', encoding=enc,
+                                   Xq=Xn, normalization='raw',
+                                   h5_layout=lay)
+        r = mapworld.run_world(wd, trace=False)
+        verdicts[f'{enc}/{lay}'] = r['exception'] is not None
+    ctx.bump('negative_value_layout_sets')
+    if len(set(verdicts.values())) != 1:
+        ctx.V('C05:mapping-differs-across-encodings',
+              f'a matrix with one negative raw count is refused in some '
+              f'encodings / layouts only: {verdicts}')
     for enc in ('csr', 'csc'):
         if outs[enc] != outs['dense']:
             ctx.V('C05:mapping-differs-across-encodings',
